@@ -59,8 +59,9 @@ func judge(k int, spec *dl.Spec, res *dl.Result) (viol [][2]string, fp string) {
 		cl  *claim
 	}
 	var items []item
+	var winBegin, winEnd int64 // claims between an external deletion and the client's next look at the files are not judged
 	for i, e := range res.Storage {
-		if e.Kind == "write" {
+		if e.Kind == "write" || e.Kind == "delete" {
 			items = append(items, item{seq: e.Seq, st: i})
 		}
 	}
@@ -82,6 +83,10 @@ func judge(k int, spec *dl.Spec, res *dl.Result) (viol [][2]string, fp string) {
 				bits[i] = i
 			}
 			items = append(items, item{seq: e.Seq, st: -1, cl: &claim{seq: e.Seq, who: e.Src, kind: "have-all", index: -1, bits: bits}})
+		case e.Src == "api" && e.Kind == "delete-window-begin":
+			winBegin = e.Seq
+		case e.Src == "api" && e.Kind == "delete-window-end":
+			winEnd = e.Seq
 		case e.Src == "api" && (e.Kind == "stats" || e.Kind == "final-stats"):
 			items = append(items, item{seq: e.Seq, st: -1, cl: &claim{seq: e.Seq, who: "Stats()", kind: e.Kind, index: -2, count: int(e.A)}})
 		}
@@ -110,6 +115,20 @@ func judge(k int, spec *dl.Spec, res *dl.Result) (viol [][2]string, fp string) {
 		if it.st >= 0 {
 			e := res.Storage[it.st]
 			off, ok := fileOff[e.Name]
+			if e.Kind == "delete" {
+				// the file was removed while the torrent was stopped: nothing of it is stored any more
+				if ok {
+					for b := off; b < off+fileLen[e.Name]; b++ {
+						if written[b] {
+							written[b] = false
+							if !pad[b] {
+								need[b/pl]++
+							}
+						}
+					}
+				}
+				continue
+			}
 			key := fmt.Sprintf("%s@%d", e.Name, e.Off)
 			if !e.Exit {
 				nWrites++
@@ -144,6 +163,9 @@ func judge(k int, spec *dl.Spec, res *dl.Result) (viol [][2]string, fp string) {
 			continue
 		}
 		c := it.cl
+		if winBegin != 0 && c.seq > winBegin && (winEnd == 0 || c.seq < winEnd) {
+			continue
+		}
 		nClaims++
 		switch c.index {
 		case -2:
